@@ -301,7 +301,7 @@ NPOINT_ALPHABET = [['T_top', 400.0], ['T_top', 2200.0], ['T_surface', 2100.0], [
                    ['T_point1', 1900.0], ['planet_mass', 0.5], ['H2O', 1e-3], ['atm_min_pressure', 1e-3]]
 
 
-def hist_build(case):
+def hist_build(case, net=None):
     fx.reset_caches()
     c = {'mag': 'tau1', 'mode': 'linear'}
     install(c, 1.0)
@@ -316,12 +316,16 @@ def hist_build(case):
             'contribs': ['abs', ['cia', ['H2-H2', 'H2-He']], 'ray', ['clouds', 1e3],
                          ['flat', {'flat_mix_ratio': 1e-31, 'flat_topP': 3e0, 'flat_bottomP': 2e4}],
                          ['lee', {'lee_mie_mix_ratio': 1e-12, 'lee_mie_radius': 0.05, 'lee_mie_q': 40}]]}
+    if net is not None:
+        spec, rest = rthist.spec_with_net(spec, net)
+        return fx.build_model(spec), rest
     return fx.build_model(spec)
 
 
 def hist_fn(case):
     r = core.R(case)
-    rthist.run_history(r, case['hist'], lambda: hist_build(case), 'transmission/' + case['path'], as_numpy=bool(case.get('np')), entry=case.get('entry', 'model'))
+    rthist.run_history(r, case['hist'], lambda: hist_build(case), 'transmission/' + case['path'],
+                       build_with=lambda net: hist_build(case, net), as_numpy=bool(case.get('np')), entry=case.get('entry', 'model'))
     return r
 
 
